@@ -52,8 +52,10 @@ def run_monitored(item):
     L = common.lib(CFG)
     snap = (ctypes.c_ubyte * SNAP)()
     stats = (ctypes.c_long * 8)()
-    def once(fail_at):
-        L.dll.vh_mon_start(ctypes.c_long(fail_at), snap, ctypes.c_size_t(SNAP))
+    def once(fail_at, sticky=False):
+        L.dll.vh_mon_start(ctypes.c_long(0 if sticky else fail_at), snap, ctypes.c_size_t(SNAP))
+        if sticky:
+            L.dll.vh_mon_sticky(ctypes.c_long(fail_at))
         try:
             res = common.run_fn(L, fname, case, fill=0x00)
         finally:
@@ -75,6 +77,7 @@ def run_monitored(item):
                 nd.setdefault(w, 'content protected by the presented token[%d..%d)' % (i, i + 8))
     found = []
     nblocks = len(blocks)
+    nsticky = 0
     def scan(blocks, exitname):
         for bi, b in enumerate(blocks):
             for i in range(0, len(b) - 7):
@@ -89,6 +92,10 @@ def run_monitored(item):
         r2, b2, s2 = once(i)
         nblocks += len(b2)
         scan(b2, 'allocation %d/%d failed (ret=%#x)' % (i, st[0], r2['ret']))
+        if i < st[0]:          # memory stays exhausted from the i-th point on: the exit taken when the clean-up path itself cannot allocate
+            r2, b2, s2 = once(i, sticky=True)
+            nblocks += len(b2); nsticky += 1
+            scan(b2, 'every allocation from %d/%d on failed (ret=%#x)' % (i, st[0], r2['ret']))
     # oracle 2 (the statement literally): what is released must not depend on the secret.  Two executions forked from
     # the same process state (same addresses, same memWipe counter) that differ only in the secret inputs: every octet
     # of a released block that differs is secret-derived; unless it is part of the call's public output it is a violation.
@@ -117,7 +124,7 @@ def run_monitored(item):
                         found.append('success exit: released block %d (%d octets) differs between two runs that differ only in %s: %d secret-dependent octet(s) in [%d,%d) that are not part of the output (e.g. offset %d: %s)'
                                      % (bi, len(x), '/'.join(cat.CAT[fname].secrets), len(d), lo, hi, secretish, x[secretish:secretish + 8].hex()))
                         break
-    return found[:3], nblocks, st[0] + 1 + 2 * ndiff, len(nd)
+    return found[:3], nblocks, st[0] + 1 + nsticky + 2 * ndiff, len(nd)
 
 def run_overlap(item):
     """the success exit again, under the buffer placements of C11 (dest against src at every offset, auxiliary inputs inside / straddling
